@@ -75,6 +75,7 @@ def run_checked(ctx):
     if ctx.replay and sc.replay(ctx, [], hargs, (True, False, False)):
         return
     hists = sc.hstore(["-mode", "hist", "-n", n, "-seed", ctx.seed] + hargs)
+    hists += sc.single_proc_histories(ctx.seed, [], hargs, 8 if ctx.quick() else 100)
     bad = sc.model_mismatches(ctx, "cases_c01", hists, True, False, False)
     sc.report(ctx, ctx.seed, hargs, hists, bad)
     sc.oracle_check(ctx, ctx.seed, hargs, hists, *(True, False, False))
@@ -101,6 +102,12 @@ def run_checked(ctx):
         ctx.violation({"kind": "concurrent-NewGraph-DeleteGraph-on-one-name", "detail": bu,
                        "explain": "8 goroutines create (then drop) the same new name: not exactly one call succeeded, or "
                                   "Graph(name) is not the graph of the successful creator"})
+    # graphs are independent also while they are loaded at the same time: 24 goroutines load one graph each, then every
+    # graph is audited sequentially (each added triple exists, the listing has exactly the distinct added triples)
+    pl = sc.hstore(["-mode", "parload", "-n", 1 if ctx.quick() else 20], timeout=3000)[0]
+    ctx.cov["parallel_load"] = {k: pl[k] for k in ("rounds", "graphs_per_round", "triples_per_graph")}
+    if pl["bad_graphs"]:
+        ctx.violation({"kind": "graphs-loaded-concurrently-do-not-hold-their-own-triples", "detail": pl})
     length = 3 if ctx.quick() else 4
     e, ebad = exhaustive(ctx, length)
     ctx.cov["exhaustive"] = {"histories": e["histories"], "length": length, "alphabet": len(e["alphabet"]),
